@@ -210,28 +210,7 @@ def _bound(P, fn, cz, node, idx, L, inv, field_consts):
             for lf in leaves:
                 if lf.k == "BinaryOperator" and lf.op == "<" and src(lf.c[0].strip_casts()) == itxt:
                     # index not modified in the body other than the loop increment/this post-increment
-                    N = lf.c[1]
-                    if N.cv is not None:
-                        if N.cv - minus <= L:
-                            return "ok:loop bound %d" % N.cv
-                        return "loop bound %d exceeds the array length %d" % (N.cv, L)
-                    # (b) N matches a file invariant
-                    t = strip_base(cz(N))
-                    if t in inv:
-                        if inv[t] - minus <= L:
-                            return "ok:loop bound `%s` is validated <= %d where the header is parsed" % (src(N), inv[t])
-                        return "loop bound `%s` is only validated <= %d, the array holds %d" % (src(N), inv[t], L)
-                    # N is a struct field assigned from such an expression / constant
-                    fc = field_consts.get(_field_name(N))
-                    if fc is not None and fc <= L:
-                        return "ok:loop bound field `%s` only ever holds values <= %d" % (src(N), fc)
-                    ck = _clamped_local(fn, N)
-                    if ck is not None:
-                        if ck - minus <= L:
-                            return "ok:loop bound `%s` starts at %d and is only ever lowered" % (src(N), ck)
-                        return "loop bound `%s` may reach %d, the array holds %d" % (src(N), ck, L)
-                    return "loop bound `%s` (%s) has no validation guard `... > K -> error` with K <= %d in this file" % (
-                        src(N), show(t), L)
+                    return _loop_bound(P, fn, cz, lf.c[1], L, minus, inv, field_consts, 2)
     # (d) refill idiom: `if (idx >= B) { refill(); }` where refill() resets idx to 0 and B <= L
     if base.k == "MemberExpr":
         for g in fn.body.walk():
@@ -282,6 +261,61 @@ def _bound(P, fn, cz, node, idx, L, inv, field_consts):
     if fc is not None and fc - minus < L:
         return "ok:field `%s` only ever holds values <= %d" % (src(base), fc)
     return None
+
+
+def _loop_bound(P, fn, cz, N, L, minus, inv, field_consts, depth):
+    """Is the loop bound N (an expression of fn) at most L + minus?  "ok:..." or the reason not."""
+    if N.cv is not None:
+        if N.cv - minus <= L:
+            return "ok:loop bound %d" % N.cv
+        return "loop bound %d exceeds the array length %d" % (N.cv, L)
+    # (b) N matches a file invariant
+    t = strip_base(cz(N))
+    if t in inv:
+        if inv[t] - minus <= L:
+            return "ok:loop bound `%s` is validated <= %d where the header is parsed" % (src(N), inv[t])
+        return "loop bound `%s` is only validated <= %d, the array holds %d" % (src(N), inv[t], L)
+    # N is a struct field assigned from such an expression / constant
+    fc = field_consts.get(_field_name(N))
+    if fc is not None and fc <= L:
+        return "ok:loop bound field `%s` only ever holds values <= %d" % (src(N), fc)
+    ck = _clamped_local(fn, N)
+    if ck is not None:
+        if ck - minus <= L:
+            return "ok:loop bound `%s` starts at %d and is only ever lowered" % (src(N), ck)
+        return "loop bound `%s` may reach %d, the array holds %d" % (src(N), ck, L)
+    # N is a parameter of a helper that never changes it: every call site's argument is the bound
+    x = N.strip_casts()
+    if depth > 0 and x.k == "DeclRefExpr" and x.get("dk") == "param" and fn.static:
+        names = [q["n"] for q in fn.params]
+        written = any((is_assign(n) or (n.k == "UnaryOperator" and n.op in ("++", "--", "&")))
+                      and n.c[0].strip_casts().k == "DeclRefExpr" and n.c[0].strip_casts().get("d") == x.get("d")
+                      and n.c[0].strip_casts().get("dk") == "param" for n in fn.body.walk())
+        sites = []
+        for g in P.functions.values():
+            if g.file != fn.file:
+                continue
+            for c in g.calls():
+                if c.callee == fn.name:
+                    sites.append((g, c))
+            if any(r.k == "DeclRefExpr" and r.name == fn.name and
+                   not (r.parent is not None and r.parent.k in ("ImplicitCastExpr",) and r.parent.parent is not None
+                        and r.parent.parent.k == "CallExpr" and r.parent.parent.c[0] is r.parent)
+                   for r in g.body.walk()):
+                sites.append(None)      # address taken: callers unknown
+        if not written and sites and None not in sites and x.name in names:
+            pi = names.index(x.name)
+            hows = []
+            for g, c in sites:
+                if pi >= len(c.args()):
+                    return "call of %s at line %s passes no argument %d" % (fn.name, c.l, pi)
+                h = _loop_bound(P, g, Canon(g), c.args()[pi], L, minus, inv, field_consts, depth - 1)
+                if not (isinstance(h, str) and h.startswith("ok:")):
+                    return "loop bound `%s` is parameter %d of %s; at its call in %s: %s" % (src(N), pi, fn.name, g.name, h)
+                hows.append("%s: %s" % (g.name, h[3:]))
+            return "ok:loop bound `%s` is parameter %d of this helper; at every call site (%s)" % (src(N), pi, "; ".join(hows))
+    return "loop bound `%s` (%s) has no validation guard `... > K -> error` with K <= %d in this file" % (
+        src(N), show(t), L)
 
 
 def _field_name(n):
